@@ -3,11 +3,44 @@ CHECKS["C15"] = dict(
     pkg="internal/verif/c15",
     packages=[("internal/verif/c15", "harness/core/c15")],
     level="exploration",
-    rule="TBD",
-    assumptions=[],
-    technique="TBD",
-    level_text="TBD",
-    level_note="TBD",
-    tests=[dict(name="TestC15", quick=dict(cases=40, shards=4, shrinktime="60s"),
-                thorough=dict(cases=250, shards=16, timeout=1500))],
+    rule=("rapid draws a cluster size n in {1,2,3}, name validation on (4/5) or off, and a history of 1-12 batched requests, each "
+          "issued through a generated gateway node, inside db.WithTx (3/4, as the API layer does) or with a nil transaction: "
+          "CreateMany of 1-4 channels (persisted index, fixed-size data, variable-length data, leased virtual, free virtual, "
+          "calculated; requested leaseholder unspecified / any node) with none, RetrieveIfNameExists, "
+          "OverwriteIfNameExistsAndDifferentProperties or both options, names fresh or colliding with existing channels or with "
+          "the derived '<name>_time' index name; one request in four carries an invalid element, placed in the middle of the "
+          "batch when it has three or more elements (unknown index, duplicate name, empty name, invalid name, taken name, unknown "
+          "leaseholder); RenameMany of 1-3 channels to fresh / taken / invalid names; Delete / DeleteMany of single channels, "
+          "of mixed batches (an index, the data channels it indexes - sometimes leaving one out -, virtual channels of the same "
+          "leaseholder, free channels) and of random batches, sometimes with a key that never existed; DeleteManyByNames. "
+          "Oracle: table model of the channels; after every request the authoritative metadata (each leaseholder's view of its "
+          "own keys) is compared with the model's prediction (successful request) or adopted (failed request, open outcomes of "
+          "the options), every node must come to retrieve exactly that table by scan and by name (bounded wait, timeout = "
+          "discard), every node's engine - enumerated by probing every key the counters can have produced - is compared with the "
+          "metadata leased to that node (key, data type, index, virtual flag, name after a successful request; existence only "
+          "after a failed one), created keys must be new over the whole history and embed the requested leaseholder, names must "
+          "be valid and unique with validation on, and channels deleted by the request must not be retrievable, writable or "
+          "readable through any node's distribution layer nor at the leaseholder's engine. Non-trivial = a history with at "
+          "least one successful delete request that removed channels of two or more kinds (index / data / virtual / free) and at "
+          "least one request routed to a leaseholder other than the gateway; distinct by script hash."),
+    assumptions=[
+        "a fresh mock.ProvisionCluster-style in-memory cluster per case (mock.NewCluster + Provision), closed after the case; node restarts are not exercised (the mock cannot reopen a node's distribution layer on the same storage)",
+        "requests are issued one at a time; after each one the harness waits for gossip quiescence (every node agrees with the leaseholders' tables, by scan and by name) for at most 6 s, otherwise the case is discarded",
+        "the statement is over successful creates, renames and deletes: a request that FAILED is not required to leave the two stores consistent (cesium documents CreateChannel/DeleteChannels as not atomic and lease_proxy.go runs the engine step last for that reason); channels it leaves in exactly one store are counted (classes orphan-after-failed-request/<op>/<side>, orphan-after-failed-notx-request), the (node, key) pair is exempted from later comparisons and the history continues",
+        "which requests must fail is not part of the oracle, except through name validity/uniqueness with validation on; a create carrying the Retrieve/Overwrite options may resolve a requested name to any channel that carries it, and may replace channels that share a requested or derived name",
+        "one new name per key in a rename request, names without regular-expression metacharacters (MatchNames treats other names as patterns), duplicate names inside one create batch only with validation on",
+        "engine enumeration probes local keys 1..(largest initial local key + number of channels submitted so far + 4) for every leaseholder prefix and the free prefix on every node's engine; the cesium directory listing is not reachable without a hook",
+        "a leaseholder whose own name index still disagrees with its own table 3 s after the request returned is reported (the index is updated in the same step as the table or never); every other lag is a discard",
+    ],
+    technique="model-based property testing (rapid): generated multi-node create/rename/delete histories against a channel-table model, with a metadata-vs-engine cross-check after every request",
+    level_text=("Generated-input search: thousands of request histories against real 1-3 node in-memory clusters (distribution layer, aspen "
+                "gossip, cesium engines; fresh per case). After every request the cluster metadata is compared with a table model and with "
+                "every node's time-series engine, keys are checked for novelty and leaseholder, names for validity/uniqueness, and deleted "
+                "channels for being unreachable at both layers. Sampled, not exhaustive; no absence claim."),
+    level_note=("Trusted: the table model and the request/result pairing in the harness, channel retrieval (full scan) as the view of a node's "
+                "metadata, cesium RetrieveChannel as the view of an engine, the mock transports, rapid, the Go toolchain. Node restarts, "
+                "concurrent requests and the ontology/search side effects of channel operations are outside the check; cases whose gossip "
+                "does not converge within the bound are discarded, not judged."),
+    tests=[dict(name="TestC15", quick=dict(cases=400, shards=4, shrinktime="45s", timeout=600),
+                thorough=dict(cases=1000, shards=16, timeout=1500, shrinktime="120s"))],
 )
